@@ -6,5 +6,6 @@ import (
 	_ "verif/harness/c07"
 	_ "verif/harness/c09"
 	_ "verif/harness/c13"
+	_ "verif/harness/c15"
 	_ "verif/harness/c16"
 )
